@@ -1,34 +1,22 @@
+import importlib.util, os
 from engine import Query
+def _load(n):
+    sp = importlib.util.spec_from_file_location(n, os.path.join(os.path.dirname(__file__), n + '.py')); m = importlib.util.module_from_spec(sp); sp.loader.exec_module(m); return m
+_c07 = _load('C07'); _c20 = _load('C20')
 META = {
- 'functions': ['JSON::JSONParser::Parse/parseValue/parseObject/parseArray (JSON.hpp:61-289), un-stubbed, recursion unwound to the document depth',
-               'JSONUtils::UnEscape', 'Digit::stringToNumber scanner + integer path', 'StringUtils::TrimLeft'],
- 'bounds': 'generated RFC 8259 documents: 13 skeletons of <= 4 nodes and nesting depth <= 2 x 10 scalar kinds (2-digit unsigned, negative, real, true, false, null, '
-           '1-unit plain string, string with every two-character escape, empty string, single digit) x whitespace absent / one symbolic legal whitespace unit at every legal position; '
-           'scalar digits, key units and whitespace units symbolic; 3 character widths. Strings/escapes in depth: C20 and the C08 escape queries; numbers: C09.',
- 'outside': 'documents outside the skeleton family (more than 4 nodes, depth > 2, keys/strings longer than 1 unit inside a structure query); real-number digits (C09); '
-            'last-value-wins for duplicate keys is checked on the real HArray in C13 (the stand-in only records both insertions in order)',
- 'assumptions': ['shape-recording Value/Array/HArray/String stand-ins instead of the real Value (real container-kind Value is beyond reach of CBMC here: no verdict in 300 s for {"a":1})',
-                 'FixedStream scratch stream', 'big-integer power-of-ten kernels havoc (kind of a real is still decided by the scanner)'],
+ 'functions': ['JSON::JSONParser::Parse / parseValue / parseObject / parseArray (JSON.hpp:61-289): each production functionally (accepts exactly the production, builds the members in order with their keys, ends at the end of the match)',
+               'JSONUtils::UnEscape + Unicode::ToUTF + Digit::HexStringToNumber (string decoding: every \\uXXXX / surrogate pair, UTF-8/16/32)'],
+ 'bounds': 'compositional: (a) strings: every \\u escape and surrogate pair with neighbours (finite domain, complete) - the C20 un-escape queries; (b) numbers: delegated to C09; '
+           '(c) structure: every production over fully symbolic exact-size buffers of every length L <= N (N = 4 quick, 6 thorough), callees under logging contracts '
+           '(whitespace of all four kinds at every legal position, member order, key length/first unit, scalar kinds and payload pass-through); by induction every nesting depth for buffers up to N',
+ 'outside': 'buffers longer than N in the structure queries; duplicate-key replacement (last value wins at the first position) is a property of the real HArray and is checked there (C13) - '
+            'the structure queries use a recording stand-in for the containers because the real container-kind Value is beyond reach of CBMC here (no verdict in 300 s for {"a":1}); '
+            'two-character escapes and longer strings: C08 escape round-trip queries',
+ 'assumptions': ['shape-recording Value/Array/HArray/String stand-ins (no heap)', 'FixedStream scratch stream'],
 }
-MANG = {'char': 'c', 'char16_t': 'Ds', 'char32_t': 'Di'}
-POW = {'_ZN6Qentem5Digit18powerOfNegativeTenIyEEvRT_j': 'stub_pow', '_ZN6Qentem5Digit18powerOfPositiveTenIyEEvRT_j': 'stub_pow'}
-def mk(mode, tier, prop):
-    qs = []
-    skels = range(13)
-    for ch in ('char', 'char16_t', 'char32_t'):
-        for sk in skels:
-            for ws in (0, 1):
-                for sc in range(10):
-                    if sk in (0, 1, 10) and sc != 0: continue          # no scalar in these skeletons
-                    if tier == 'quick':
-                        if ch != 'char' and not (sk in (5, 9) and ws == 1 and sc in (0, 6)): continue
-                        if ch == 'char' and sk not in (0, 1, 10) and (sc + sk + ws) % 4 != 0: continue
-                    n = 48
-                    b = {'TrimLeft': 4, 'parseArray|parseObject': 4, 'UnEscape': 5, 'Write': 3, 'stringToNumber': 5, 'parseExponent': 3, 'HexStringToNumber': 5,
-                         'parseValue': 6, 'Insert': 3, 'Array|HArray|Value|ShapeChild|String': 4, 'h_doc': 50}
-                    qs.append(Query('%s/%s/skel%d/sc%d/ws%d' % (prop, ch, sk, sc, ws), 'C06_json_docs.cpp', 'h_doc',
-                                    {'CHAR': ch, 'SKEL': sk, 'SC': sc, 'WS': ws, 'MODE': mode}, bounds=b, stubs=POW, cflags=['-Dprotected=public'],
-                                    rec_bounds={'parse.*': 3}, default_rec=3, timeout=600))
-    return qs
 def queries(tier):
-    return mk(0, tier, 'doc')
+    qs = _c07.fn_queries(tier, 'production')
+    for q in _c20.queries(tier):
+        if q.name.startswith('unescape/'):
+            q.name = 'string/' + q.name; qs.append(q)
+    return qs
